@@ -268,7 +268,9 @@ impl Driver for C11 {
                 let a = ["A", "B", "k", "n1"][rng.gen_range(0..4)];
                 let v = rng.gen_range(1..9);
                 let (c1, c2) = (rng.gen_range(1..6), rng.gen_range(1..6));
-                format!("max {c1} x_{{\"{a}\"}} + {c2} x_{a}\ns.t.\n    x_{{\"{a}\"}} <= 3\n    x_{a} + x_{{\"{a}\"}} <= 4\nwhere\n    let {a} = {v}\ndefine\n    x_{{\"{a}\"}} as NonNegativeReal\n    x_{a} as NonNegativeReal\n")
+                // and an escaped name used as an index next to constants that spell its parts: v_{\esc_X} is v_esc_X,
+                // v_esc_X with let esc = 5, let X = 2 is v_5_2
+                format!("max {c1} x_{{\"{a}\"}} + {c2} x_{a} + v_{{\\esc_X}} + v_esc_X\ns.t.\n    x_{{\"{a}\"}} <= 3\n    x_{a} + x_{{\"{a}\"}} <= 4\n    v_{{\\esc_X}} <= 3\n    v_esc_X <= 2\nwhere\n    let {a} = {v}\n    let esc = 5\n    let X = 2\ndefine\n    x_{{\"{a}\"}} as NonNegativeReal\n    x_{a} as NonNegativeReal\n    v_{{\\esc_X}} as NonNegativeReal\n    v_esc_X as NonNegativeReal\n    \\esc_X as Real(1, 1)\n")
             } else if case % 3 == 2 {
                 crate::gen_data::gen_prog(&mut rng).0.text_p()
             } else if case % 2 == 0 {
